@@ -391,12 +391,12 @@ func checkC12(c *Ctx, r *Report) {
 			}
 			seqOK, tsOK := false, false
 			for _, st := range storesToField(resp, "InvocationSequenceNumber") {
-				if instrDominates(st, ri.Ret) && isParamFieldLoad(st.Val, cd, "InvocationSequenceNumber") {
+				if instrDominates(st, ri.Point()) && isParamFieldLoad(st.Val, cd, "InvocationSequenceNumber") {
 					seqOK = true
 				}
 			}
 			for _, st := range storesToField(resp, "InvocationTimeStamp") {
-				if instrDominates(st, ri.Ret) && !isNilConst(st.Val) {
+				if instrDominates(st, ri.Point()) && !isNilConst(st.Val) {
 					tsOK = true
 				}
 			}
@@ -526,7 +526,7 @@ func checkValidateBeforeEffect(c *Ctx, r *Report, eff *effects, f *ssa.Function,
 				all4xx := true
 				nret := 0
 				for _, ri := range rets {
-					if !reach[ri.Ret.Block()] {
+					if !reach[ri.At] {
 						continue
 					}
 					nret++
